@@ -59,7 +59,7 @@ DgTpls   == {"dg.clienthello", "dg.serverhello", "dg.hvr", "dg.cert", "dg.ske", 
 SctpTpls == {"sctp.init", "sctp.init_ack", "sctp.cookie_echo", "sctp.cookie_ack", "sctp.data", "sctp.dcep_open",
              "sctp.sack", "sctp.heartbeat", "sctp.forward_tsn", "sctp.reconfig", "sctp.abort", "sctp.shutdown",
              "sctp.bundle"}
-SdpTpls  == {"sdp.webrtc", "sdp.simulcast", "sdp.sdes"}
+SdpTpls  == {"sdp.webrtc", "sdp.simulcast", "sdp.sdes", "sdp.t38"}
 
 AllEntries == <<
   \* pure decoders and operations on what they return
@@ -87,7 +87,7 @@ AllEntries == <<
   E("dtls_client", "endpoint", Conn, DgTpls),
   E("sctp", "endpoint", Conn, SctpTpls),
   E("rtp_transport", "endpoint", <<"pre", "est", "closing">>, RtpTpls \cup RtcpTpls),
-  E("pc_sdp", "endpoint", Conn, SdpTpls),
+  E("pc_sdp", "endpoint", Conn, SdpTpls \ {"sdp.t38"}),
   E("pc_candidate", "endpoint", Conn, {"sdp.candidate"}),
   E("udptl", "endpoint", <<"est">>, {"udptl.packet"})
 >>
